@@ -251,7 +251,9 @@ def _run(ev, work, thorough):
     two, r2 = export(work, "two", NRows=3 if not thorough else 4, KeyVals="K2n", KeyVals2="K2", Offsets="Offs4")
     ev.add_tlc("Partition: two partition columns", r2, frames=len(two))
     kinds1 = [("int", "str"), ("float", "str"), ("bool", "str"), ("datetime", "str"), ("datetime_ns", "str"), ("str", "str"), ("numstr", "str"), ("cat", "str")]
-    kinds2 = [("int", "str"), ("str", "numstr"), ("datetime", "bool"), ("cat", "int"), ("float", "cat"), ("datetime_ns", "int")]
+    # ("int", "numstr") / ("numstr", "int"): two columns of DIFFERENT kinds whose directory texts coincide (42 and "42")
+    kinds2 = [("int", "str"), ("str", "numstr"), ("datetime", "bool"), ("cat", "int"), ("float", "cat"), ("datetime_ns", "int"),
+              ("int", "numstr"), ("numstr", "int")]
     base = os.path.join(work, "part")
     os.makedirs(base)
     jobs = []
